@@ -162,6 +162,10 @@ class ModelMixin(object):
                 for r in self.call_builtin("arr.getitem", st, [o, idx], {}):
                     yield r
                 return
+            if isinstance(c, Obj) and c.cls.name == "SymMap":
+                for r in self.symmap_getitem(st, c, idx):
+                    yield r
+                return
         if isinstance(o, (DataView, MaskView)):
             for r in self.call_builtin("arr.getitem", st, [o, idx], {}):
                 yield r
